@@ -121,6 +121,9 @@ func (f *Func) walkUnit(fn func(n ast.Node) bool, seen map[*Func]bool) {
 		if !s.spawned && !seen[s.h] {
 			seen[s.h] = true
 			s.h.walkUnit(fn, seen)
+			for _, sy := range s.h.synthOrder {
+				fn(sy) // the node itself only: its operands were visited with the return statement
+			}
 		}
 	}
 }
@@ -320,6 +323,7 @@ func structOf(t types.Type) *types.Struct {
 
 // ConstInt evaluates a constant integer expression.
 func ConstInt(info *types.Info, e ast.Expr) (int64, bool) {
+	e = ArgExpr(info, e) // a parameter of a helper read in place stands for its argument
 	tv, ok := info.Types[e]
 	if !ok || tv.Value == nil {
 		return 0, false
@@ -478,7 +482,13 @@ func (f *Func) AssignedFrom(obj types.Object) []ast.Expr {
 	f.Walk(func(n ast.Node) bool {
 		switch s := n.(type) {
 		case *ast.AssignStmt:
+			if inlinedAssign[s] {
+				return true
+			}
 			for i, l := range s.Lhs {
+				if IsSelfAssign(info, s, i) {
+					continue
+				}
 				if id, ok := l.(*ast.Ident); ok && ObjOf(info, id) != nil && sameObj(ObjOf(info, id), obj) {
 					if len(s.Rhs) == len(s.Lhs) {
 						out = append(out, s.Rhs[i])
